@@ -89,6 +89,74 @@ def check(model: Model, run: Run) -> None:
     from .c19 import parse_results_fresh
     parse_results_fresh(model, run, SCHEMA, "G9-parse-results-are-fresh", "what a definition parses to")
     keyword_combinations(model, run)
+    hooks_store_fields_as_given(model, run, [f"{SCHEMA}.{c}" for c in CLASSES], "G10-results-hold-what-was-parsed",
+                                "the definition from_string returns no longer holds, for every input, what the grammar denotes")
+
+
+def hooks_store_fields_as_given(model: Model, run: Run, classes, rule: str, consequence: str) -> None:
+    """A constructor hook (__post_init__, a hand-written __init__, __setattr__) of a value class may keep a private copy of
+    what it was given (list(x), dict(x), x.copy(), tuple(x), x[:]) but must not store anything else in a field: the object
+    then no longer holds what the parser (or the caller) put in, and equality with the original / with the grammar's
+    denotation is lost for the inputs the rewrite changes."""
+    COPIES = {"list", "dict", "tuple", "bytes", "frozenset", "set"}
+    n = 0
+    for q in classes:
+        c = model.classes.get(q)
+        if c is None:
+            continue
+        fields = {f.name for f in model.dataclass_fields(q)} if c.is_dataclass else set()
+        for hook in ("__post_init__", "__init__", "__setattr__", "__new__"):
+            mt = model.find_method(q, hook)
+            if mt is None or isinstance(mt.node, ast.Lambda) or mt.cls not in model.classes or mt.module not in (model.classes[q].module,):
+                continue
+            n += 1
+            bad = None
+
+            def is_copy(v: ast.expr, fname: str) -> bool:
+                src = (f"self.{fname}", fname)
+                if isinstance(v, ast.Call) and isinstance(v.func, ast.Name) and v.func.id in COPIES and len(v.args) == 1 and not v.keywords and norm(v.args[0]) in src:
+                    return True
+                if isinstance(v, ast.Call) and isinstance(v.func, ast.Attribute) and v.func.attr == "copy" and not v.args and norm(v.func.value) in src:
+                    return True
+                if isinstance(v, ast.Call) and norm(v.func) in ("copy.copy", "copy.deepcopy") and len(v.args) == 1 and norm(v.args[0]) in src:
+                    return True
+                if isinstance(v, ast.Subscript) and isinstance(v.slice, ast.Slice) and v.slice.lower is None and v.slice.upper is None and v.slice.step is None and norm(v.value) in src:
+                    return True
+                if isinstance(v, (ast.Name, ast.Attribute)) and norm(v) in src:
+                    return True
+                if isinstance(v, ast.IfExp):
+                    return is_copy(v.body, fname) and is_copy(v.orelse, fname)
+                return False
+            for x in walk_no_nested(mt.node):
+                fname, val = None, None
+                if isinstance(x, ast.Call) and norm(x.func) in ("object.__setattr__", "setattr", "super().__setattr__") and len(x.args) == 3 and norm(x.args[0]) == "self":
+                    fname = x.args[1].value if isinstance(x.args[1], ast.Constant) and isinstance(x.args[1].value, str) else "?"
+                    val = x.args[2]
+                elif isinstance(x, (ast.Assign, ast.AnnAssign)) and x.value is not None:
+                    for t_ in (x.targets if isinstance(x, ast.Assign) else [x.target]):
+                        if isinstance(t_, ast.Attribute) and isinstance(t_.value, ast.Name) and t_.value.id == "self":
+                            fname, val = t_.attr, x.value
+                elif isinstance(x, ast.AugAssign) and isinstance(x.target, ast.Attribute) and isinstance(x.target.value, ast.Name) and x.target.value.id == "self":
+                    fname, val = x.target.attr, x.value
+                    if fname in fields:
+                        bad = bad or (x, fname)
+                    continue
+                elif isinstance(x, ast.Call) and isinstance(x.func, ast.Attribute) and isinstance(x.func.value, ast.Attribute) and norm(x.func.value.value) == "self" \
+                        and x.func.value.attr in fields and x.func.attr in ("append", "extend", "insert", "pop", "remove", "clear", "sort", "reverse", "update", "setdefault", "popitem", "discard", "add"):
+                    bad = bad or (x, x.func.value.attr)
+                    continue
+                if fname is None:
+                    continue
+                if hook == "__setattr__" and fname == "?":
+                    continue          # the generic forwarding of __setattr__ itself
+                if fname == "?" or (fname in fields and not is_copy(val, fname)):
+                    bad = bad or (x, fname)
+            run.ob(rule, bad is None, {"class": q.split(".")[-1], "hook": hook})
+            if bad is not None:
+                x, fname = bad
+                run.fail(Finding(rule, mt.qualname, f"{fname}|{norm(x)[:70]}", f"{q.split('sansldap.')[-1]}.{hook} re-writes field `{fname}` (`{norm(x)[:70]}`): {consequence}",
+                                 model.loc(mt.module, x)))
+    run.coverage.setdefault("constructor_hooks", {})[rule] = n
 
 
 def keyword_combinations(model: Model, run: Run) -> None:
